@@ -111,7 +111,7 @@ def jobs(prop, tier):
                      unwindset={'vp_main': 9, 'RecListener': 9, 'related': 9}, bounds='the real initial state is related; one step from it', **dict(BUS, solver=PORTFOLIO)))
     if prop in ('C02', 'C03', 'C04'):
         BUS = dict(link=['lib/ebus/symbol.cpp', 'lib/ebus/device_trans.cpp', 'lib/ebus/result.cpp', 'lib/utils/thread.cpp'],
-                   models=['string', 'libc', 'sstream', 'posix', 'containers'], solver=PORTFOLIO)
+                   models=['string', 'libc', 'sstream', 'posix', 'containers'], solver=('minisat', 'kissat'))   # MiniSat wins the small phases, kissat the arbitration step
         pn = int(prop[2])
         # the only BusRequest objects in these harnesses are RecRequest; ActiveBusRequest members stay out of the dispatch
         # (checked, not assumed: a call that reaches a class outside the emitted candidates fails the slot check)
@@ -130,6 +130,26 @@ def jobs(prop, tier):
             J.append(Job(prop, 'act_%s_nn%d' % (nm, nn), 'C02_step.cpp', defs={'NNMAX': nn, 'PROP': pn, 'MODE': mode, 'HSTATE': hstate}, unwind=5, shape='S', timeout=3000 if T else 300,
                          unwindset={'vp_main': 257, 'RecListener': nn + 8, 'related': nn + 8, 'relatedActive': nn + 8, 'reqIsM': nn + 8, 'setVec': nn + 8},
                          bounds='one handler step from every state of phase "%s" of an own exchange related to a sender monitor state, request NN <= %d, response NN <= %d' % (nm, nn, nn), **BUS))
+    if prop in ('C03', 'C04'):
+        BUS = dict(link=['lib/ebus/symbol.cpp', 'lib/ebus/device_trans.cpp', 'lib/ebus/result.cpp', 'lib/utils/thread.cpp'],
+                   models=['string', 'libc', 'sstream', 'posix', 'containers'], solver=('minisat', 'kissat'), devirt_exclude=['_ZN5ebusd16ActiveBusRequest'])
+        pn = int(prop[2])
+        nn = 1
+        # (requests waiting, device arbitration state 0 idle / 1 armed / 2 address written) x handler state group
+        combos = ((0, 0), (1, 0), (1, 1), (1, 2), (2, 0), (2, 1), (2, 2))
+        groups = ((0, 'nosignal'), (1, 'skip'), (2, 'ready'), (9, 'recv'))
+        # quick tier: the combinations in which arming, the address write, the echo check and the loss of signal happen
+        quick = {'C03': ('q1_arm0_skip', 'q1_arm0_ready', 'q1_arm1_skip', 'q1_arm1_recv', 'q1_arm2_ready'),
+                 'C04': ('q1_arm1_skip', 'q1_arm2_ready', 'q1_arm2_skip')}[prop]
+        for (nq, arm) in combos:
+          for (hg, gn) in groups:
+            if arm == 2 and hg == 9:
+                continue   # excluded by the invariant: after the address was written only ready (echo awaited) or skip/noSignal (timed out) occur
+            if not T and 'q%d_arm%d_%s' % (nq, arm, gn) not in quick:
+                continue
+            J.append(Job(prop, 'pas_q%d_arm%d_%s' % (nq, arm, gn), 'C03_passive.cpp', defs={'NNMAX': nn, 'PROP': pn, 'NQ': nq, 'ARM': arm, 'HGROUP': hg}, unwind=5, shape='S', timeout=3000 if T else 300,
+                         unwindset={'vp_main': 257, 'RecListener': nn + 8, 'related': nn + 8, 'relatedActive': nn + 8, 'reqIsM': nn + 8, 'setVec': nn + 8, 'fillRequest': nn + 8},
+                         bounds='one handler step from every passive handler state of group "%s" with %d request(s) waiting and the device %s, every read outcome; telegram parts NN <= %d (the data size of passive reception is C01\'s subject)' % (gn, nq, ('idle', 'armed for arbitration', 'waiting for the echo of its arbitration address')[arm], nn), **BUS))
     if prop == 'C15':
         BUS = dict(link=['lib/ebus/symbol.cpp', 'lib/ebus/device_trans.cpp', 'lib/ebus/result.cpp', 'lib/utils/thread.cpp'],
                    models=['string', 'libc', 'sstream', 'posix', 'containers'], solver=PORTFOLIO)
